@@ -98,6 +98,9 @@ pub fn roundtrip(data: &[u8]) -> Result<(), String> {
 }
 
 pub fn by_name(target: &str, data: &[u8]) -> Option<Result<(), String>> {
+    if let Some(prop) = target.strip_prefix("values.") {
+        return Some(values(prop, data));
+    }
     Some(match target {
         "nopanic" => nopanic(data),
         "picture" => picture(data),
@@ -108,11 +111,212 @@ pub fn by_name(target: &str, data: &[u8]) -> Option<Result<(), String>> {
 }
 
 pub fn property_of(target: &str) -> &'static str {
+    if let Some(prop) = target.strip_prefix("values.") {
+        for p in ["C02", "C04", "C06", "C07", "C08", "C09", "C10", "C11", "C12", "C13", "C14", "C15", "C16", "C17"] {
+            if p == prop {
+                return p;
+            }
+        }
+    }
     match target {
         "nopanic" => "C03",
         "picture" => "C19",
         "parse" => "C05",
         "roundtrip" => "C06",
         _ => "C03",
+    }
+}
+
+// ---------------------------------------------------------------------------------------
+// `values` target: raw integers / doubles fed to the value oracles of one property. The
+// bytes map (almost) directly onto the microsecond / day / month counts, so libFuzzer's
+// comparison tracing (-use_value_profile=1) can steer toward interior constants that the
+// library compares against (fast-path thresholds, table sizes, narrowing limits).
+
+use crate::engine::Verdict;
+use crate::model::cal::*;
+use crate::ops;
+use crate::props::{c02, c04, c07, c08, c09, c10, c11, c12, c13, c14, c15, c16, c17};
+
+fn fold(x: i64, lo: i128, hi: i128) -> i128 {
+    let x = x as i128;
+    if x >= lo && x <= hi {
+        x
+    } else {
+        lo + x.rem_euclid(hi - lo + 1)
+    }
+}
+
+pub fn values(prop: &str, data: &[u8]) -> Result<(), String> {
+    let mut r = Rd { d: data, p: 0 };
+    let sel = r.u8();
+    let sel2 = r.u8();
+    let mut i64le = |r: &mut Rd| -> i64 {
+        let mut b = [0u8; 8];
+        for k in 0..8 {
+            b[k] = r.u8();
+        }
+        i64::from_le_bytes(b)
+    };
+    let a = i64le(&mut r);
+    let b = i64le(&mut r);
+    let cbits = i64le(&mut r) as u64;
+    let f = f64::from_bits(cbits);
+    let c = cal();
+    let ts = fold(a, ts_min(), ts_max());
+    let ts2 = fold(b, ts_min(), ts_max());
+    let (n, t) = (ts.div_euclid(US_PER_DAY) as i32, ts.rem_euclid(US_PER_DAY) as i64);
+    let ora = ts.div_euclid(US_PER_SEC) * US_PER_SEC;
+    let time = fold(b, 0, US_PER_DAY - 1);
+    let dt = fold(b, -DT_MAX, DT_MAX);
+    let dt_a = fold(a, -DT_MAX, DT_MAX);
+    let ym = fold(b, -YM_MAX, YM_MAX);
+    let date = fold(a, c.first as i128, c.last as i128);
+    let v2r = |v: Verdict| match v {
+        Verdict::Fail(m) => Err(m),
+        _ => Ok(()),
+    };
+    match prop {
+        "C07" => {
+            c07::check_pair(n, t)?;
+            c07::check_time(time as i64)?;
+            c07::check_order(ts as i64, ts2 as i64)
+        }
+        "C08" => {
+            let lops = ops::linear_ops();
+            let op = &lops[sel as usize % lops.len()];
+            let raws = [a, b];
+            let args: Vec<ops::Arg> = op
+                .args
+                .iter()
+                .enumerate()
+                .map(|(k, ak)| match ak {
+                    ops::ArgKind::K(kind) => {
+                        let (lo, hi) = strat::limits(*kind);
+                        let mut x = fold(raws[k.min(1)], lo, hi);
+                        if *kind == Kind::Ora {
+                            x = x.div_euclid(US_PER_SEC) * US_PER_SEC;
+                        }
+                        ops::Arg::V(Val::new(*kind, x))
+                    }
+                    ops::ArgKind::I32 => ops::Arg::I32(raws[k.min(1)] as i32),
+                    ops::ArgKind::I64 => ops::Arg::I64(raws[k.min(1)]),
+                    ops::ArgKind::U32 => ops::Arg::U32(raws[k.min(1)] as u32),
+                    ops::ArgKind::F64 => ops::Arg::F64(f),
+                })
+                .collect();
+            c08::judge_linear(op, &args).map(|_| ())?;
+            c08::check_add_days(ts, f, sel2 & 1 == 1).map(|_| ())
+        }
+        "C09" => {
+            let which = sel % 3;
+            let tt = if which == 2 { t / 1_000_000 * 1_000_000 } else if which == 0 { 0 } else { t };
+            c09::check_add_ym(which, n, tt, ym as i32, sel2 & 1 == 1)?;
+            c09::check_last_day(which, n, tt)
+        }
+        "C10" => {
+            let u = UNITS[sel as usize % 12];
+            let which = (sel2 % 3) as u8;
+            let tt = if which == 2 { t / 1_000_000 * 1_000_000 } else { t };
+            c10::check_trunc(which, u, &c10::bounds_cached(u), n, tt)
+        }
+        "C11" => {
+            let u = UNITS[sel as usize % 12];
+            let which = (sel2 % 3) as u8;
+            let tt = if which == 2 { t / 1_000_000 * 1_000_000 } else { t };
+            v2r(c11::check_round(which, u, &c10::bounds_cached(u), n, tt))
+        }
+        "C12" => {
+            c12::check_addsub(time as i64, dt_a as i64, sel & 1 == 1).map(|_| ())?;
+            c12::check_cmp(time as i64, dt_a as i64)?;
+            c12::check_from_interval(dt_a as i64)
+        }
+        "C13" => {
+            c13::check_dt(dt_a as i64)?;
+            c13::check_ym(ym as i32)
+        }
+        "C14" => {
+            let which = sel % 3;
+            let x = match which {
+                0 => ym,
+                1 => dt_a,
+                _ => fold(a, 0, US_PER_DAY - 1),
+            };
+            c14::check_scale(which, x, f, sel2 & 1 == 1).map(|_| ())
+        }
+        "C16" => {
+            c16::check_convert(ts)?;
+            c16::check_add_dt(ora, dt, sel & 1 == 1)?;
+            c16::check_add_days(sel2 % 4, ts, f).map(|_| ())
+        }
+        "C17" => {
+            let u = UNITS[sel as usize % 12];
+            let tt = t / 1_000_000 * 1_000_000;
+            c17::check_unit(sel2 & 1 == 1, u, n, tt)?;
+            c17::check_add_ym(n, tt, ym as i32)?;
+            c17::check_add_dt(n, tt, dt)?;
+            c17::check_cmp(date as i32, ts2, ora)
+        }
+        "C02" => {
+            let all = ops::all_ops();
+            let op = &all[(sel as usize * 256 + sel2 as usize) % all.len()];
+            if op.args.len() > 2 {
+                return Ok(());
+            }
+            let raws = [a, b];
+            let args: Vec<ops::Arg> = op
+                .args
+                .iter()
+                .enumerate()
+                .map(|(k, ak)| match ak {
+                    ops::ArgKind::K(kind) => {
+                        let (lo, hi) = strat::limits(*kind);
+                        let mut x = fold(raws[k.min(1)], lo, hi);
+                        if *kind == Kind::Ora {
+                            x = x.div_euclid(US_PER_SEC) * US_PER_SEC;
+                        }
+                        ops::Arg::V(Val::new(*kind, x))
+                    }
+                    ops::ArgKind::I32 => ops::Arg::I32(raws[k.min(1)] as i32),
+                    ops::ArgKind::I64 => ops::Arg::I64(raws[k.min(1)]),
+                    ops::ArgKind::U32 => ops::Arg::U32(raws[k.min(1)] as u32),
+                    ops::ArgKind::F64 => ops::Arg::F64(f),
+                })
+                .collect();
+            c02::judge_op(op, &args).map(|_| ())
+        }
+        "C04" | "C06" | "C15" => {
+            let kind = KINDS[sel as usize % 6];
+            let (lo, hi) = strat::limits(kind);
+            let mut raw = fold(a, lo, hi);
+            if kind == Kind::Ora {
+                raw = raw.div_euclid(US_PER_SEC) * US_PER_SEC;
+            }
+            let v = Val::new(kind, raw);
+            let pics: &[&str] = match kind {
+                Kind::Date => &["YYYY-MM-DD", "DAY, DD MONTH YYYY DDD D W WW Y YY YYY", "Dy Mon DD YYYY"],
+                Kind::Time => &["HH24:MI:SS.FF6", "HH:MI:SS.FF9 AM", "hh12 mi ss ff3 p.m."],
+                Kind::Ts => &["YYYY-MM-DD HH24:MI:SS.FF6", "DAY, DD MONTH YYYY HH:MI:SS.FF9 A.M. DDD D W WW", "YYYYMMDDHH24MISSFF6"],
+                Kind::Ora => &["YYYY-MM-DD HH24:MI:SS", "Dy DD-MON-YYYY HH12:MI:SS PM DDD"],
+                Kind::YM => &["YYYY-MM", "Y-MM", "YY MM"],
+                Kind::DT => &["DD HH24:MI:SS.FF6", "DD HH24:MI:SS.FF9", "DD,HH24MISSFF3"],
+            };
+            match prop {
+                "C04" => {
+                    for p in pics {
+                        c04::check_format(&v, p).map(|_| ())?;
+                    }
+                    Ok(())
+                }
+                "C06" => c06::check_roundtrip(kind, raw, pics[0]),
+                _ => {
+                    c15::check_roundtrip(kind, raw)?;
+                    // the binary payload has the width of the type's raw count
+                    let payload = if matches!(kind, Kind::Date | Kind::YM) { b as i32 as i128 } else { b as i128 };
+                    c15::check_decode_bin(kind, payload).map(|_| ())
+                }
+            }
+        }
+        other => Err(format!("values target: no oracle set for property {other}")),
     }
 }
